@@ -4,6 +4,8 @@ Cache layout: /verif/.cache/<treehash>/<kind>-<config>/...  (small JSON / text f
 cargo target directories live in a mkdtemp directory that is removed as soon as the engine is done).
 """
 import fcntl
+import json
+import re
 import hashlib
 import os
 import shutil
@@ -70,17 +72,23 @@ class Lock:
 
 
 def prune_cache(keep):
-    """Keep the two most recent tree hashes."""
+    """Keep the three most recently used tree hashes; never delete one used in the last 30 minutes (other checks
+    may be running on it concurrently)."""
     if not os.path.isdir(CACHE):
         return
+    kp = os.path.join(CACHE, keep)
+    if os.path.isdir(kp):
+        os.utime(kp, None)
     ents = []
+    now = time.time()
     for e in os.listdir(CACHE):
         p = os.path.join(CACHE, e)
-        if os.path.isdir(p) and e != keep:
+        if os.path.isdir(p) and e != keep and re.fullmatch(r'[0-9a-f]{20}', e):
             ents.append((os.path.getmtime(p), p))
     ents.sort(reverse=True)
-    for _m, p in ents[1:]:
-        shutil.rmtree(p, ignore_errors=True)
+    for m, p in ents[2:]:
+        if now - m > 1800:
+            shutil.rmtree(p, ignore_errors=True)
 
 
 def nightly_sysroot():
@@ -264,3 +272,53 @@ def gen_facts(treehash, config):
         finally:
             shutil.rmtree(tmp, ignore_errors=True)
     return out
+
+
+# ------------------------------------------------------------------------------------------------
+# compile-fail witnesses (E3)
+# ------------------------------------------------------------------------------------------------
+
+WITNESS_DIR = os.path.join(VERIF, 'witness')
+
+
+def witness_facts(treehash):
+    """Runs the doc tests of the witness crate (compile_fail with error codes + compiling no_run twins) and returns
+    {test name: 'ok'|'FAILED'}.  Nothing is executed: compile_fail tests only compile, twins are no_run."""
+    out = os.path.join(CACHE, treehash, 'witness.json')
+    if os.path.exists(out):
+        with open(out) as f:
+            return json.load(f)
+    with Lock(os.path.join(CACHE, treehash, 'witness.lock')):
+        if os.path.exists(out):
+            with open(out) as f:
+                return json.load(f)
+        tmp = tempfile.mkdtemp(prefix='logosverif-wit-')
+        try:
+            w = os.path.join(tmp, 'witness')
+            shutil.copytree(WITNESS_DIR, w, ignore=shutil.ignore_patterns('target', 'Cargo.lock'))
+            with open(os.path.join(w, 'Cargo.toml')) as f:
+                toml = f.read()
+            with open(os.path.join(w, 'Cargo.toml'), 'w') as f:
+                f.write(toml.replace('path = "/repo"', 'path = "%s"' % REPO))
+            shutil.copy(os.path.join(REPO, 'Cargo.lock'), os.path.join(w, 'Cargo.lock'))
+            env = dict(BASE_ENV)
+            env['CARGO_TARGET_DIR'] = os.path.join(tmp, 'target')
+            t0 = time.time()
+            r = subprocess.run(['cargo', '+nightly', 'test', '--doc', '--offline'], cwd=w, env=env, stdout=subprocess.PIPE, stderr=subprocess.STDOUT, text=True)
+            res = {}
+            for line in r.stdout.splitlines():
+                m = re.match(r'test (src/lib\.rs - \S+) \(line \d+\)( - compile fail)?( - compile)? \.\.\. (\w+)', line)
+                if m:
+                    key = m.group(1).split(' - ')[1] + (':compile_fail' if m.group(2) else ':twin')
+                    n = sum(1 for k in res if k.startswith(key + '#'))
+                    res['%s#%d' % (key, n)] = m.group(4)
+            if not res:
+                sys.stderr.write(r.stdout[-3000:])
+                raise BuildFailed('witness doc tests did not run', r.stdout)
+            log('witness %d doc tests %.1fs' % (len(res), time.time() - t0))
+            os.makedirs(os.path.dirname(out), exist_ok=True)
+            with open(out, 'w') as f:
+                json.dump(res, f, indent=1)
+            return res
+        finally:
+            shutil.rmtree(tmp, ignore_errors=True)
